@@ -71,6 +71,7 @@ def derived_cases(rng, m, ctx):
             cases.append({'id': '%s-%s-%s-%s' % (m['id'], what, variant, kind), 'ev': 'derived', 'what': what, 'variant': variant,
                           'a': pa, 'n': NS, 'res': pres(r)})
             ctx.nontrivial.add((T, tuple(mask), what, variant, kind))
+        cases.append({'id': '%s-derived-frame-%s' % (m['id'], kind), 'ev': 'frame', 'before': [pa], 'after': [pcorr(a)], 'first': [], 'second': []})
         # plateau
         a.gamma_method()
         lo = int(rng.integers(0, T))
@@ -91,14 +92,14 @@ def derived_cases(rng, m, ctx):
                 r = _call(lambda: a.plateau(method=method))
                 cases.append({'id': '%s-plateau-%s-prange-%d-%d-%s' % (m['id'], method, stored[0], stored[1], kind), 'ev': 'derived', 'what': 'plateau',
                               'variant': method, 'method': method, 'lo': stored[0], 'hi': stored[1], 'dv': dv, 'a': pcorr(a), 'n': NS, 'res': pres(r)})
-        cases.append({'id': '%s-plateau-frame-%s' % (m['id'], kind), 'ev': 'frame', 'what': 'plateau leaves the range it was given and the stored plateau range as they were',
-                      'before': [lo, hi] + (stored or []), 'after': [int(v) for v in given] + ([int(v) for v in a.prange] if stored else []), 'first': [], 'second': []})
     for kind, variants in (('cosh', ('cosh', 'periodic')), ('sinh', ('sinh',))):
         if T < 4:
             continue
         a = data_corr(rng, mask, kind)
         for variant in variants:
+            pa_m = pcorr(a)
             r = _call(lambda: a.m_eff(variant, guess=0.3))
+            cases.append({'id': '%s-m_eff-%s-frame' % (m['id'], variant), 'ev': 'frame', 'before': [pa_m], 'after': [pcorr(a)], 'first': [], 'second': []})
             cases.append({'id': '%s-m_eff-%s' % (m['id'], variant), 'ev': 'derived', 'what': 'm_eff', 'variant': variant, 'a': pcorr(a),
                           'n': NS, 'res': pres(r)})
             ctx.nontrivial.add((T, tuple(mask), 'm_eff', variant))
